@@ -255,7 +255,7 @@ func c13HSScenario(h c13HS, il bool) *Scenario {
 // one arrives that does not belong to the association (SCTP ports of another association)
 // and differs in the zero-checksum parameter: it is discarded as a whole - what the endpoint
 // sends afterwards follows the genuine INIT-ACK alone.
-func c13StrayInitAckScenario(il, enabled, strayZC, realZC bool) *Scenario {
+func c13StrayInitAckScenario(il, enabled, strayZC, realZC bool, strayInit ...bool) *Scenario {
 	return &Scenario{
 		Name:    "zc-stray-initack",
 		Horizon: 60 * time.Second,
@@ -278,9 +278,22 @@ func c13StrayInitAckScenario(il, enabled, strayZC, realZC bool) *Scenario {
 				}
 				return chunkBytes(wINITACK, 0, wInitVal(p.tag, p.arwnd, 65535, 65535, p.tsn0, ps...))
 			}
-			stray := wNewPacket(5001, 5002, p.aTag)
-			stray.rawChunk(iack(strayZC))
-			p.inject(stray.bytes(true))
+			if len(strayInit) > 0 && strayInit[0] {
+				// a stale INIT of an earlier incarnation of the peer (other tag and TSN, its own
+				// zero-checksum declaration) reaches the client while it waits for the INIT-ACK
+				ps := [][]byte{wTLVBytes(0x8008, []byte{130, 192, 64, 194}[:map[bool]int{false: 2, true: 4}[il]], false)}
+				if strayZC {
+					ps = append(ps, wTLVBytes(0x8001, u32(1), true))
+				}
+				old := wNewPacket(5000, 5000, 0)
+				old.rawChunk(chunkBytes(wINIT, 0, wInitVal(p.tag+77, p.arwnd, 65535, 65535, p.tsn0+1000, ps...)))
+				p.inject(old.bytes(true))
+			} else {
+				stray := wNewPacket(5001, 5002, p.aTag)
+				stray.rawChunk(iack(strayZC))
+				p.inject(stray.bytes(true))
+			}
+			evGenuine := len(m.W.events) // what the endpoint sends from here on follows the genuine INIT-ACK
 			out = p.inject(p.pkt(iack(realZC)))
 			gotEcho := false
 			for _, o := range out {
@@ -306,11 +319,11 @@ func c13StrayInitAckScenario(il, enabled, strayZC, realZC bool) *Scenario {
 			s.WriteSCTP(payload(2, 0, 300), PayloadTypeWebRTCBinary)
 			p.settle(0)
 			p.ackAll()
-			for _, ev := range m.W.events {
+			for i, ev := range m.W.events {
 				if ev.Kind == "send" && ev.From == 0 && ev.Pkt.dec != nil {
 					d := ev.Pkt.dec
-					if d.CksumZero && !realZC {
-						m.Failf("cksum.emit", "endpoint emitted a zero checksum (%s): only the discarded INIT-ACK for other ports advertised acceptance", d.Summary())
+					if d.CksumZero && !realZC && i >= evGenuine {
+						m.Failf("cksum.emit", "endpoint emitted a zero checksum (%s) after an INIT-ACK that does not declare acceptance: only the stray packet before it did", d.Summary())
 					}
 					if !d.CksumZero && !d.CksumOK {
 						m.Failf("cksum.emit", "endpoint emitted a wrong CRC32c")
@@ -319,7 +332,7 @@ func c13StrayInitAckScenario(il, enabled, strayZC, realZC bool) *Scenario {
 			}
 			md, _ := p.a.Metadata()
 			if md.ZeroChecksumSendingEnabled != realZC {
-				m.Failf("cksum.negotiation", "stray INIT-ACK zc=%v, genuine zc=%v: ZeroChecksumSendingEnabled=%v", strayZC, realZC, md.ZeroChecksumSendingEnabled)
+				m.Failf("cksum.negotiation", "stray packet zc=%v, genuine INIT-ACK zc=%v: ZeroChecksumSendingEnabled=%v", strayZC, realZC, md.ZeroChecksumSendingEnabled)
 			}
 			m.Observe("zc=%v", md.ZeroChecksumSendingEnabled)
 			c03Teardown(m, p)
@@ -334,6 +347,7 @@ func propC13(j *Job) {
 		for _, en := range []bool{false, true} {
 			for _, zz := range [][2]bool{{true, false}, {false, true}, {true, true}} {
 				j.Explore(fmt.Sprintf("stray-initack/il%v/en%v/stray%v/real%v", il, en, zz[0], zz[1]), c13StrayInitAckScenario(il, en, zz[0], zz[1]), Budget{}, nil)
+				j.Explore(fmt.Sprintf("stale-init/il%v/en%v/stale%v/real%v", il, en, zz[0], zz[1]), c13StrayInitAckScenario(il, en, zz[0], zz[1], true), Budget{}, nil)
 			}
 		}
 	}
